@@ -225,6 +225,25 @@ impl NodeSuite {
                         cfg.claims.push(range_text(&r)?);
                     }
                 }
+                // adv=<pN | 4:<hex ip>:<port> | ip4:<hex ip>>,… : config.advertise_addresses, rendered as the user would write them
+                // ("*:N", "a.b.c.d:port", "a.b.c.d" = default port of the listen address)
+                if let Some(adv) = f.get("adv") {
+                    if *adv != "-" {
+                        for x in adv.split(',') {
+                            let text = if let Some(p) = x.strip_prefix('p') {
+                                format!("*:{}", p)
+                            } else if let Some(h) = x.strip_prefix("ip4:") {
+                                let b = unhex(h)?;
+                                format!("{}.{}.{}.{}", b.first()?, b.get(1)?, b.get(2)?, b.get(3)?)
+                            } else {
+                                let parts: Vec<&str> = x.split(':').collect();
+                                let b = unhex(parts.get(1)?)?;
+                                format!("{}.{}.{}.{}:{}", b.first()?, b.get(1)?, b.get(2)?, b.get(3)?, parts.get(2)?)
+                            };
+                            cfg.advertise_addresses.push(text);
+                        }
+                    }
+                }
                 cfg.crypto.password = Some("x".to_string());
                 cfg.crypto.algorithms = vec!["plain".to_string()];
                 let ki: usize = f.get("key")?.parse().ok()?;
